@@ -546,7 +546,7 @@ def check_lookalike(ctx, case):
 
 FAMILIES = [
     Family('exhaustive', check_any, enumerate=enum_cases),
-    Family('random', check_any, strategy=lambda tier: random_case(), n=(12000, 500000)),
+    Family('random', check_any, strategy=lambda tier: random_case(), n=(30000, 500000)),
     Family('chains', check_any, strategy=lambda tier: chain_case(), n=(4000, 150000)),
     Family('constructions', check_any, enumerate=enum_constructions),
     Family('lookalikes', lambda ctx, case: check_lookalike(ctx, case), enumerate=enum_lookalikes),
